@@ -159,15 +159,35 @@ def strip_coq_comments(text):
     return ''.join(out)
 
 
-def hygiene():
-    """Reject admits, declared axioms, and disabled kernel checks anywhere under coq/.
-    `Variable`/`Hypothesis` are allowed only between `Section` and `End`."""
+def v_closure(vfiles):
+    """the .v files (relative to coq/) that the given files transitively Require from GV"""
+    seen, todo = set(), list(vfiles)
+    while todo:
+        f = todo.pop()
+        if f in seen or not os.path.exists(os.path.join(COQ, f)):
+            continue
+        seen.add(f)
+        text = strip_coq_comments(open(os.path.join(COQ, f)).read())
+        for m in re.finditer(r'(From\s+GV\s+)?Require\s+(?:Import\s+|Export\s+)?(.*?)\.(?=\s|$)', text, re.S):
+            for name in m.group(2).split():
+                if m.group(1):
+                    todo.append(name.replace('.', '/') + '.v')
+                elif name.startswith('GV.'):
+                    todo.append(name[3:].replace('.', '/') + '.v')
+    return sorted(seen)
+
+
+def hygiene(only=None):
+    """Reject admits, declared axioms, and disabled kernel checks under coq/ (everything, or the
+    dependency closure `only`).  `Variable`/`Hypothesis` are allowed only between `Section` and `End`."""
     bad = []
     for root, _, files in os.walk(COQ):
         for fn in files:
             if not fn.endswith('.v'):
                 continue
             path = os.path.join(root, fn)
+            if only is not None and os.path.relpath(path, COQ) not in only:
+                continue
             text = strip_coq_comments(open(path).read())
             depth = 0
             for ln, line in enumerate(text.split('\n'), 1):
@@ -301,7 +321,8 @@ def proof_leg(driver, tier):
                 res['theorems'] += theorem_names(vf)
             res['obligations'] = len(res['theorems'])
             return res
-        bad = hygiene()
+        extract0 = getattr(driver, 'EXTRACT', 'Extract/X%s.v' % driver.PROPERTY)
+        bad = hygiene(v_closure(list(driver.THEOREM_FILES) + [extract0]))
         if bad:
             res['failure'] = {'file': 'coq/', 'statement': 'hygiene gate',
                               'error': '\n'.join(bad[:20])}
@@ -420,10 +441,17 @@ def run_model(name, lines, timeout=1200):
 
 def load_known():
     p = os.path.join(VERIF, 'KNOWN_FINDINGS.json')
-    if not os.path.exists(p):
-        return []
-    with open(p) as f:
-        return json.load(f)['findings']
+    out = []
+    if os.path.exists(p):
+        with open(p) as f:
+            out += json.load(f)['findings']
+    d = os.path.join(VERIF, 'known_findings.d')      # per-property fragments (same entry format)
+    if os.path.isdir(d):
+        for fn in sorted(os.listdir(d)):
+            if fn.endswith('.json'):
+                with open(os.path.join(d, fn)) as f:
+                    out += json.load(f)
+    return out
 
 
 def matches(sig, pattern):
